@@ -4,7 +4,7 @@ import vlib, gen, impl
 from props.c01 import VERSIONS
 
 MODULES = ['Hl7.Props.C17']
-THEOREMS = ['Hl7.C17.C17_parseMessage_independent', 'Hl7.C17.C17_header_independent', 'Hl7.C17.C17_explicit_functions_take_no_defaults']
+THEOREMS = ['Hl7.C17.C17_parseMessage_independent', 'Hl7.C17.C17_header_independent', 'Hl7.C17.C17_explicit_functions_take_no_defaults', 'Hl7.C17.C17_unsupported_version']
 DEF = '|^&~\\'
 ALT_EC = [None, {'FIELD': '!', 'COMPONENT': '@', 'SUBCOMPONENT': '%', 'REPETITION': '$', 'ESCAPE': '/'},
           {'FIELD': ';', 'COMPONENT': ':', 'SUBCOMPONENT': '=', 'REPETITION': '*', 'ESCAPE': '?'}]
